@@ -1,6 +1,8 @@
 package conf
 
 import (
+	"strconv"
+
 	"code.cloudfoundry.org/bytefmt"
 
 	"github.com/bluenviron/mediamtx/internal/conf/jsonwrapper"
@@ -11,7 +13,28 @@ type StringSize uint64
 
 // MarshalJSON implements json.Marshaler.
 func (s StringSize) MarshalJSON() ([]byte, error) {
-	return []byte(`"` + bytefmt.ByteSize(uint64(s)) + `"`), nil
+	// use the largest unit that represents the value exactly,
+	// in order to get the same value back when decoding.
+	v := uint64(s)
+	unit := "B"
+
+	switch {
+	case v == 0:
+	case (v % (1 << 40)) == 0:
+		v /= 1 << 40
+		unit = "T"
+	case (v % (1 << 30)) == 0:
+		v /= 1 << 30
+		unit = "G"
+	case (v % (1 << 20)) == 0:
+		v /= 1 << 20
+		unit = "M"
+	case (v % (1 << 10)) == 0:
+		v /= 1 << 10
+		unit = "K"
+	}
+
+	return []byte(`"` + strconv.FormatUint(v, 10) + unit + `"`), nil
 }
 
 // UnmarshalJSON implements json.Unmarshaler.
